@@ -411,7 +411,7 @@ var companyBattery = []companyItem{
 	}},
 	{"typed-slices", []string{"C10", "C19", "C14"}, func(n int64, _ *companyTrace) (string, map[string]interface{}, func(interface{}, error) string) {
 		a := n%100003 + 5
-		k := n%40 + 3
+		k := n%300 + 3
 		src := fmt.Sprintf("a = make([]int64); l = []; for i = 0; i < %d; i++ { l += %d + i }; a += l; a += [1, 2]; b = make([]string); b += [\"x%d\", \"y\"]; c = make([]float64); c += [1.5, %d]; d = toIntSlice([%d, %d.0]); f = toFloatSlice(l); s = toStringSlice([\"p%d\", \"q\"]); [len(a), a[0], a[%d], a[len(a)-1], typeOf(a), b, c[1], typeOf(c), d, f[%d], len(f), s]", k, a, a, a, a, a+1, a, k-1, k-1)
 		return src, nil, wantList(k+2, a, a+k-1, int64(2), "[]int64", []string{"x" + strconv.FormatInt(a, 10), "y"}, float64(a), "[]float64", []int64{a, a + 1}, float64(a+k-1), k, []string{"p" + strconv.FormatInt(a, 10), "q"})
 	}},
@@ -445,6 +445,14 @@ func companyStart(k int, seed int64, prop string) func() wk.CompanyReport {
 	var wg sync.WaitGroup
 	var mu sync.Mutex
 	rep := wk.CompanyReport{PerItem: map[string]int{}}
+	var pref []*companyItem
+	for i := range companyBattery {
+		for _, p := range companyBattery[i].props {
+			if p == prop && prop != "C14" {
+				pref = append(pref, &companyBattery[i])
+			}
+		}
+	}
 	for g := 0; g < k; g++ {
 		wg.Add(1)
 		go func(g int) {
@@ -455,6 +463,11 @@ func companyStart(k int, seed int64, prop string) func() wk.CompanyReport {
 			var mis []wk.CompanyMismatch
 			for i := 0; atomic.LoadInt32(&stop) == 0; i++ {
 				it := &companyBattery[(i+g*5)%len(companyBattery)]
+				// every other execution is a program of the statement being checked: the company then
+				// overlaps with the cases, and with itself, in the code the property is anchored in
+				if len(pref) > 0 && i%2 == 1 {
+					it = pref[rng.Intn(len(pref))]
+				}
 				n := rng.Int63n(1 << 40)
 				msg, src := companyRunItem(it, n)
 				runs++
